@@ -17,3 +17,7 @@ package verifspec
 //@ iface error.Error
 //@   results s
 //@   assigns \nothing
+
+//@ extern github.com/bytedance/gopkg/lang/span.NewSpanCache
+//@   ensures !isnil(ret)
+//@   assigns \nothing
